@@ -3,7 +3,7 @@
         { B <title> <tag> | M <nlayers> {<title> <tag>}* | U <title> <nent> { (r <name> <tag> <mode> | d <name> <mode> | h <name> <tgt> | s <name> <tgt> | o <name>) <time> }* }*
    strings are hex ("-" = empty); paths are absolute slash-separated strings; modes decimal.
    Pre-populated directories have mode 0755, files 0644.
-   Output: <id> <verdicts>|<hexpath>:<dMODE|fTAGmMODE|lHEXTARGET>,... sorted by hexpath *)
+   Output: <id> {<O|E><8 hex digits: md5 of the listing after that push>}*|<hexpath>:<dMODE|fTAGmMODE|lHEXTARGET>,... sorted by hexpath *)
 let path_of_string (s : string) : n list list =
   List.filter_map (fun seg -> if seg = "" then None else
     Some (List.map (fun c -> n_of_int (Char.code c)) (List.of_seq (String.to_seq seg))))
@@ -75,21 +75,26 @@ let run_case id toks =
              ops := PManifest (List.rev !ls) :: !ops
     | k -> failwith ("push kind " ^ k)
   done;
-  let (st, oks) = pushes g pres wd cwd { st_fs = fs0; st_names = []; st_d2p = [] } (List.rev !ops) in
-  let f = st.st_fs in
-  let stamp p k = if inside wd p || k = 0 then "" else "@" ^ string_of_int k in
-  let lines = List.map (fun (p, nd) ->
-      let hp = hex_of_path p in
-      match nd with
-      | NDir -> (hp, "d" ^ string_of_int (int_of_n (dir_mode f p)) ^ stamp p (int_of_n (dir_stamp f p)))
-      | NFile i -> let c = int_of_n (content f i) in
-                   (hp, "f" ^ string_of_int (c / 1024) ^ "m" ^ string_of_int (c mod 1024)
-                        ^ stamp p (int_of_n (file_stamp f i)))
-      | NSym (d, _, _) -> (hp, "l" ^ hex_of_str d)) f.ents in
-  let lines = List.sort compare lines in
-  Printf.printf "%s %s|%s\n" id
-    (String.concat "" (List.map (fun b -> if b then "O" else "E") oks))
-    (String.concat "," (List.map (fun (a, b) -> a ^ ":" ^ b) lines))
+  let listing (f : fsys) : string =
+    let stamp p k = if inside wd p || k = 0 then "" else "@" ^ string_of_int k in
+    let lines = List.map (fun (p, nd) ->
+        let hp = hex_of_path p in
+        match nd with
+        | NDir -> (hp, "d" ^ string_of_int (int_of_n (dir_mode f p)) ^ stamp p (int_of_n (dir_stamp f p)))
+        | NFile i -> let c = int_of_n (content f i) in
+                     (hp, "f" ^ string_of_int (c / 1024) ^ "m" ^ string_of_int (c mod 1024)
+                          ^ stamp p (int_of_n (file_stamp f i)))
+        | NSym (d, _, _) -> (hp, "l" ^ hex_of_str d)) f.ents in
+    let lines = List.sort compare lines in
+    String.concat "," (List.map (fun (a, b) -> a ^ ":" ^ b) lines) in
+  (* one push at a time: the verdict and a digest of the whole tree after every push *)
+  let st = ref { st_fs = fs0; st_names = []; st_d2p = [] } in
+  let steps = List.map (fun o ->
+      let (s1, ok) = push g pres wd cwd !st o in
+      st := s1;
+      (if ok then "O" else "E") ^ String.sub (Digest.to_hex (Digest.string (listing s1.st_fs))) 0 8)
+      (List.rev !ops) in
+  Printf.printf "%s %s|%s\n" id (String.concat "" steps) (listing !st.st_fs)
 
 let () =
   iter_lines (fun l ->
